@@ -492,3 +492,198 @@ Proof.
   - exists (EvFork 262151 1). split; vm_compute; auto 10.
   - exists (EvFork 196615 1). split; vm_compute; auto 10.
 Qed.
+
+(* ------------------------------------------------------------------------------------------ *)
+(** * Buffer machine: MessageExchanger.buffers under data_received / receive (asyncoro.py:95-114)    *)
+
+Inductive slot := Payload | Waiting.
+Inductive bop := Deliver (pc : Z) | Receive (pc : Z).
+Definition buf := list (Z * slot).
+
+Fixpoint blookup (pc : Z) (b : buf) : option slot :=
+  match b with [] => None | (k, s) :: t => if Z.eqb k pc then Some s else blookup pc t end.
+Fixpoint bremove (pc : Z) (b : buf) : buf :=
+  match b with [] => [] | (k, s) :: t => if Z.eqb k pc then bremove pc t else (k, s) :: bremove pc t end.
+Definition bset (pc : Z) (s : slot) (b : buf) : buf := (pc, s) :: bremove pc b.
+
+(** state: (buffers, number of matched deliver/receive pairs, an exception was raised) *)
+Definition bstate := (buf * nat * bool)%type.
+
+Definition bstep (st : bstate) (o : bop) : bstate :=
+  let '(b, n, e) := st in
+  match o with
+  | Deliver pc =>
+      match blookup pc b with
+      | Some Waiting => (bremove pc b, S n, e)      (* buffers.pop(pc).set_result(payload) *)
+      | Some Payload => (bremove pc b, n, true)     (* pop, then bytes has no set_result: AttributeError *)
+      | None => (bset pc Payload b, n, e)           (* buffers[pc] = payload *)
+      end
+  | Receive pc =>
+      match blookup pc b with
+      | Some Payload => (bremove pc b, S n, e)      (* pop: the payload is returned *)
+      | Some Waiting => (bremove pc b, n, e)        (* pop returns the other receiver's Future and drops the entry *)
+      | None => (bset pc Waiting b, n, e)           (* buffers[pc] = Future() *)
+      end
+  end.
+
+Definition bm_run (ops : list bop) : bstate := fold_left bstep ops ([], 0%nat, false).
+
+Definition delivered (ops : list bop) : list Z :=
+  flat_map (fun o => match o with Deliver pc => [pc] | _ => [] end) ops.
+Definition received (ops : list bop) : list Z :=
+  flat_map (fun o => match o with Receive pc => [pc] | _ => [] end) ops.
+Definition zmem (pc : Z) (l : list Z) : bool := existsb (Z.eqb pc) l.
+
+Definition expected (D R : list Z) (pc : Z) : option slot :=
+  match zmem pc D, zmem pc R with
+  | true, false => Some Payload
+  | false, true => Some Waiting
+  | _, _ => None
+  end.
+
+Lemma zmem_In : forall pc l, zmem pc l = true <-> In pc l.
+Proof.
+  intros pc l. unfold zmem. rewrite existsb_exists. split.
+  - intros (x & Hx & He). apply Z.eqb_eq in He. subst. exact Hx.
+  - intros H. exists pc. split; [exact H|apply Z.eqb_refl].
+Qed.
+
+Lemma zmem_app : forall pc a b, zmem pc (a ++ b) = zmem pc a || zmem pc b.
+Proof. intros. unfold zmem. apply existsb_app. Qed.
+
+Lemma zmem_single : forall pc k, zmem pc [k] = Z.eqb pc k.
+Proof. intros. unfold zmem. simpl. apply orb_false_r. Qed.
+
+Lemma blookup_bremove_same : forall pc b, blookup pc (bremove pc b) = None.
+Proof.
+  induction b as [|[k s] t IH]; simpl; [reflexivity|].
+  destruct (Z.eqb k pc) eqn:E; [exact IH|]. simpl. rewrite E. exact IH.
+Qed.
+
+Lemma blookup_bremove_other : forall pc k b, k <> pc -> blookup k (bremove pc b) = blookup k b.
+Proof.
+  intros pc k b Hne. induction b as [|[k' s] t IH]; simpl; [reflexivity|].
+  destruct (Z.eqb k' pc) eqn:E.
+  - apply Z.eqb_eq in E. subst k'. destruct (Z.eqb pc k) eqn:E2; [apply Z.eqb_eq in E2; congruence|exact IH].
+  - simpl. destruct (Z.eqb k' k); [reflexivity|exact IH].
+Qed.
+
+Lemma blookup_bset : forall pc s k b,
+  blookup k (bset pc s b) = if Z.eqb pc k then Some s else blookup k b.
+Proof.
+  intros. unfold bset. simpl. destruct (Z.eqb pc k) eqn:E; [reflexivity|].
+  apply blookup_bremove_other. intros ->. rewrite Z.eqb_refl in E. discriminate.
+Qed.
+
+Lemma delivered_app : forall a b, delivered (a ++ b) = delivered a ++ delivered b.
+Proof. intros. unfold delivered. apply flat_map_app. Qed.
+Lemma received_app : forall a b, received (a ++ b) = received a ++ received b.
+Proof. intros. unfold received. apply flat_map_app. Qed.
+
+Lemma NoDup_app_l : forall {A} (a b : list A), NoDup (a ++ b) -> NoDup a.
+Proof. intros A a b H. induction a as [|h t IH]; [constructor|]. simpl in H. inversion H; subst.
+  constructor; [intros Hin; apply H2, in_or_app; left; exact Hin|apply IH, H3]. Qed.
+
+Lemma NoDup_snoc_notin : forall {A} (a : list A) x, NoDup (a ++ [x]) -> ~ In x a.
+Proof.
+  intros A a x H Hin. induction a as [|h t IH]; [destruct Hin|].
+  simpl in H. inversion H; subst. destruct Hin as [->|Hin].
+  - apply H2, in_or_app. right. left. reflexivity.
+  - apply IH; assumption.
+Qed.
+
+(** With duplicate-free delivered labels and duplicate-free received labels, after ANY interleaving:
+    no exception; the buffer holds exactly the delivered-not-received payloads and the received-not-delivered
+    waiting futures. *)
+Theorem bm_spec : forall ops,
+  NoDup (delivered ops) -> NoDup (received ops) ->
+  let '(b, n, e) := bm_run ops in
+  e = false /\ forall pc, blookup pc b = expected (delivered ops) (received ops) pc.
+Proof.
+  induction ops as [|o ops IH] using rev_ind; intros HD HR.
+  - simpl. split; [reflexivity|intros pc; reflexivity].
+  - unfold bm_run in *. rewrite fold_left_app. simpl.
+    rewrite delivered_app in HD. rewrite received_app in HR.
+    specialize (IH (NoDup_app_l _ _ HD) (NoDup_app_l _ _ HR)).
+    destruct (fold_left bstep ops ([], 0%nat, false)) as [[b n] e]. destruct IH as [He Hb]. subst e.
+    rewrite delivered_app, received_app.
+    destruct o as [pc|pc]; simpl in *.
+    + (* Deliver pc : pc not delivered before *)
+      rewrite app_nil_r in *.
+      assert (HnD : zmem pc (delivered ops) = false).
+      { destruct (zmem pc (delivered ops)) eqn:E; [|reflexivity].
+        apply zmem_In in E. exfalso. eapply NoDup_snoc_notin; eauto. }
+      pose proof (Hb pc) as Hpc. unfold expected in Hpc. rewrite HnD in Hpc.
+      destruct (zmem pc (received ops)) eqn:ER; rewrite Hpc.
+      * split; [reflexivity|]. intros k. unfold expected. rewrite zmem_app, zmem_single.
+        destruct (Z.eqb k pc) eqn:Ek.
+        -- apply Z.eqb_eq in Ek. subst k. rewrite blookup_bremove_same, ER, orb_true_r. reflexivity.
+        -- rewrite orb_false_r. rewrite blookup_bremove_other; [apply Hb|intros ->; rewrite Z.eqb_refl in Ek; discriminate].
+      * split; [reflexivity|]. intros k. unfold expected. rewrite zmem_app, zmem_single, blookup_bset.
+        rewrite (Z.eqb_sym pc k). destruct (Z.eqb k pc) eqn:Ek.
+        -- apply Z.eqb_eq in Ek. subst k. rewrite ER, orb_true_r. reflexivity.
+        -- rewrite orb_false_r. apply Hb.
+    + (* Receive pc : pc not received before *)
+      rewrite app_nil_r in *.
+      assert (HnR : zmem pc (received ops) = false).
+      { destruct (zmem pc (received ops)) eqn:E; [|reflexivity].
+        apply zmem_In in E. exfalso. eapply NoDup_snoc_notin; eauto. }
+      pose proof (Hb pc) as Hpc. unfold expected in Hpc. rewrite HnR in Hpc.
+      destruct (zmem pc (delivered ops)) eqn:ED; rewrite Hpc.
+      * split; [reflexivity|]. intros k. unfold expected. rewrite zmem_app, zmem_single.
+        destruct (Z.eqb k pc) eqn:Ek.
+        -- apply Z.eqb_eq in Ek. subst k. rewrite blookup_bremove_same, ED, orb_true_r. reflexivity.
+        -- rewrite orb_false_r. rewrite blookup_bremove_other; [apply Hb|intros ->; rewrite Z.eqb_refl in Ek; discriminate].
+      * split; [reflexivity|]. intros k. unfold expected. rewrite zmem_app, zmem_single, blookup_bset.
+        rewrite (Z.eqb_sym pc k). destruct (Z.eqb k pc) eqn:Ek.
+        -- apply Z.eqb_eq in Ek. subst k. rewrite ED, orb_true_r. reflexivity.
+        -- rewrite orb_false_r. apply Hb.
+Qed.
+
+(** ... so at quiescence nothing is left iff sends and receives match: a delivered label is still buffered iff it
+    was never received, a receive is still waiting iff its label was never delivered. *)
+Corollary consumed_once : forall ops pc,
+  NoDup (delivered ops) -> NoDup (received ops) ->
+  let b := fst (fst (bm_run ops)) in
+  (blookup pc b = Some Payload <-> In pc (delivered ops) /\ ~ In pc (received ops)) /\
+  (blookup pc b = Some Waiting <-> In pc (received ops) /\ ~ In pc (delivered ops)) /\
+  (In pc (delivered ops) -> In pc (received ops) -> blookup pc b = None).
+Proof.
+  intros ops pc HD HR. pose proof (bm_spec ops HD HR) as H.
+  destruct (bm_run ops) as [[b n] e]. destruct H as [_ H]. simpl. rewrite (H pc). unfold expected.
+  destruct (zmem pc (delivered ops)) eqn:ED; destruct (zmem pc (received ops)) eqn:ER;
+    repeat split; try discriminate; try reflexivity; intros;
+    repeat match goal with
+    | H : _ /\ _ |- _ => destruct H
+    | H : zmem _ _ = true |- _ => apply zmem_In in H
+    end; try tauto;
+    try (exfalso; match goal with H : In pc ?l, E : zmem pc ?l = false |- _ =>
+           apply zmem_In in H; rewrite H in E; discriminate end).
+  - intros Hin. apply zmem_In in Hin. rewrite Hin in ER. discriminate.
+  - intros Hin. apply zmem_In in Hin. rewrite Hin in ED. discriminate.
+Qed.
+
+(** all buffers empty at the end  <->  the delivered and received label sets coincide *)
+Corollary empty_iff_matched : forall ops,
+  NoDup (delivered ops) -> NoDup (received ops) ->
+  ((forall pc, blookup pc (fst (fst (bm_run ops))) = None) <->
+   (forall pc, In pc (delivered ops) <-> In pc (received ops))).
+Proof.
+  intros ops HD HR. pose proof (bm_spec ops HD HR) as H.
+  destruct (bm_run ops) as [[b n] e]. destruct H as [_ H]. simpl. split.
+  - intros Hall pc. specialize (Hall pc). rewrite H in Hall. unfold expected in Hall.
+    destruct (zmem pc (delivered ops)) eqn:ED; destruct (zmem pc (received ops)) eqn:ER; try discriminate.
+    + apply zmem_In in ED. apply zmem_In in ER. tauto.
+    + split; intros Hin; apply zmem_In in Hin; congruence.
+  - intros Hall pc. rewrite H. unfold expected.
+    destruct (zmem pc (delivered ops)) eqn:ED; destruct (zmem pc (received ops)) eqn:ER; try reflexivity.
+    + apply zmem_In in ED. apply Hall in ED. apply zmem_In in ED. congruence.
+    + apply zmem_In in ER. apply Hall in ER. apply zmem_In in ER. congruence.
+Qed.
+
+(** a repeated label breaks it: delivered twice before being received -> exception; received twice -> the
+    second receive steals the Future and the payload is orphaned *)
+Example bm_duplicate_refuted :
+  snd (bm_run [Deliver 7; Deliver 7]) = true /\
+  bm_run [Receive 7; Receive 7; Deliver 7] = ([(7, Payload)], 0%nat, false).
+Proof. vm_compute. split; reflexivity. Qed.
